@@ -61,6 +61,53 @@ func init() {
 			tp.Body = insertBefore(tp.Body, &idx, fail, false, &ok)
 			return &progCase{P: prog}
 		})
+		// the value of block() is what the block renders at the moment of the
+		// call: a block whose body prints nothing itself (text under conditions
+		// and loops on the surrounding loop's variables) rendered in place and
+		// through block(), captures and filter sections in every iteration
+		sub.Rapid(c, c.Share(c.Pick(1500, 80000)), func(t *rapidT) *progCase {
+			n := rapidInt(t, 2, 4)
+			var part func(d int) *m.N
+			part = func(d int) *m.N {
+				switch k := rapidInt(t, 0, 4); {
+				case k == 0 || d == 0:
+					return m.NText([]string{"a", "b", ".", ", ", "*"}[rapidInt(t, 0, 4)])
+				case k == 1:
+					return &m.N{K: "if", X: m.EBin("==", m.EName("i"), m.ENum(float64(rapidInt(t, 1, n)))), Body: []*m.N{part(d - 1)}, HasElse: true, Else: []*m.N{part(d - 1)}}
+				case k == 2:
+					return &m.N{K: "if", X: m.EAttr(m.EName("loop"), []string{"last", "first"}[rapidInt(t, 0, 1)]), Body: []*m.N{part(d - 1)}, HasElse: rapidInt(t, 0, 1) == 0, Else: []*m.N{m.NText("-")}}
+				case k == 3:
+					return &m.N{K: "for", S: "j", X: m.EBin("..", m.ENum(1), m.EName("i")), Body: []*m.N{part(d - 1)}}
+				}
+				return &m.N{K: "if", X: m.EBin("<", m.EName("i"), m.ENum(float64(rapidInt(t, 1, n)))), Body: []*m.N{part(d - 1)}}
+			}
+			blk := &m.N{K: "block", S: "sep"}
+			for i, k := 0, rapidInt(t, 1, 3); i < k; i++ {
+				blk.Body = append(blk.Body, part(2))
+			}
+			call := &m.E{K: "blockfn", A: []*m.E{m.EStr("sep")}}
+			body := []*m.N{m.NPrint(m.EName("i"))}
+			if rapidInt(t, 0, 1) == 0 {
+				body = append(body, blk)
+			}
+			for i, k := 0, rapidInt(t, 1, 3); i < k; i++ {
+				switch rapidInt(t, 0, 2) {
+				case 0:
+					body = append(body, m.NPrint(call))
+				case 1:
+					body = append(body, &m.N{K: "setcap", S: "cap", Body: []*m.N{m.NText("<"), m.NPrint(call), m.NText(">")}}, m.NPrint(m.EName("cap")), m.NPrint(m.EName("cap")))
+				default:
+					body = append(body, &m.N{K: "filter", Names: []string{"wrap"}, Body: []*m.N{m.NPrint(call)}})
+				}
+			}
+			loop := &m.N{K: "for", S: "i", X: m.EBin("..", m.ENum(1), m.ENum(float64(n))), Body: body}
+			tp := &m.Tpl{Name: "main", Body: []*m.N{m.NText("["), loop, m.NText("]")}}
+			if len(body) > 0 && body[1] != blk {
+				// the block is defined after the loop, inside a capture that is never printed
+				tp.Body = append(tp.Body, &m.N{K: "setcap", S: "unused", Body: []*m.N{&m.N{K: "for", S: "i", X: m.EBin("..", m.ENum(1), m.ENum(1)), Body: []*m.N{blk}}}})
+			}
+			return &progCase{P: &m.Program{Env: "core", Loader: "memory", Entry: "main", Tpls: []*m.Tpl{tp}}}
+		})
 	}
 	Register(p)
 }
